@@ -15,9 +15,10 @@ TRAITS = {
 
 
 def run(ctx, res):
-    res.rules_run += ["C14.fields (PartialEq/PartialOrd/Ord/Hash for Object touch `entries` of their operands only and delegate, unconditionally, to the same method of Vec<Entry>; partial_cmp = Some(cmp))",
+    res.rules_run += ["C14.fields (PartialEq/PartialOrd/Ord/Hash for Object touch no field of their operands but `entries`)", "C14.sem (==, cmp, partial_cmp and hash of Object interpreted on every pair of small objects whose key indexes are wrong on purpose: the results are those of the entry lists - equality, lexicographic order by (key, value), Some(of it), a hash fed with the entries in order and nothing else)",
                       "C14.derive (Value and Entry carry compiler-derived PartialEq, Eq, PartialOrd, Ord, Hash, Clone; Object: Clone is derived, Eq is a marker impl)"]
     fields_rule(ctx, res)
+    sem_rule(ctx, res)
     derive_rule(ctx, res)
     res.trusted.append("derived lexicographic impls over the same field order are mutually coherent given coherent components; Eq/Ord/Hash of NumberBuf / SmallString are dependencies")
 
@@ -44,48 +45,174 @@ def fields_one(P, res, tname, tpath, method, key, inst):
         # field discipline: only `entries` of Object is touched
         acc = static.field_accesses(P, inst, "json_syntax::Object")
         touched = sorted(set(f for _, _, f, _ in acc))
-        res.ob(touched == ["entries"], "C14.fields", key + "/fields", "%s::%s for Object touches fields %r (must be `entries` only)" % (tname, method, touched),
+        res.ob(set(touched) <= {"entries"}, "C14.fields", key + "/fields", "%s::%s for Object touches fields %r (no field but `entries` may be touched)" % (tname, method, touched),
                sample={"impl": tname, "fields_touched": touched})
-        # delegation shape
-        sh = shape.Shape(P)
-        delegate = r"^(?=.*(%s|%s))(?=.*Vec<json_syntax::object::Entry<).*::%s(::<.*>)?$" % (re.escape(tpath), "std::cmp::Ord" if tname == "PartialOrd" else re.escape(tpath), method if tname != "PartialOrd" else "(partial_cmp|cmp)")
-        sh.cut(delegate, "delegate", ret=lambda it, st, call, args: Top(shape.ret_ty(it, call), "delegate-result"))
-        oty = P.types[inst["locals"][1]]["to"]
-        a_entries, b_entries = Top(None, "a.entries"), Top(None, "b.entries")
-        a = sh.cell(Agg(oty, 0, (a_entries, Top(None, "a.indexes"))))
-        args = [a]
-        if tname != "Hash":
-            b = sh.cell(Agg(oty, 0, (b_entries, Top(None, "b.indexes"))))
-            args.append(b)
-        else:
-            hs = sh.cell(Top(None, "hasher"))
-            args.append(hs)
-        try:
-            outs = sh.run(inst, args)
-        except Undecided as e:
-            res.violation("C14.fields", key + "/undecided", "undecided: %s (%s)" % (e, e.site))
-            continue
-        ok = len(outs) == 1 and outs[0].outcome[0] == "return"
-        res.ob(ok, "C14.fields", key + "/paths", "%s::%s for Object is not a single unconditional path (%d paths: %s)" % (tname, method, len(outs), [o.outcome[0] for o in outs]))
-        if not ok:
-            continue
-        o = outs[0]
-        ev = shape.events(o)
-        good = len(ev) == 1 and ev[0][0] == "delegate"
-        if good:
-            snap = ev[0][2]
-            good = snap[0] == a_entries and (snap[1] == b_entries if tname != "Hash" else ev[0][1][1] == hs)
-        res.ob(good, "C14.fields", key + "/delegates", "%s::%s for Object does not delegate exactly once to Vec<Entry>::%s on the entries of its operands: %r" % (
-            tname, method, method, [(e[0], e[3]) for e in ev]), sample={"impl": tname, "delegates_to": "Vec<Entry>::" + method})
-        res.ob(not sh.unknown(), "C14.fields", key + "/other-calls", "%s::%s for Object calls something else: %r" % (tname, method, sh.unknown()))
-        rv = o.outcome[1]
-        if tname == "PartialOrd":
-            good = isinstance(rv, Agg) and rv.variant == 1 and isinstance(rv.fields[0], Top) and rv.fields[0].tag == "delegate-result"
-            # and the delegate must be the total comparison (Ord::cmp) or partial_cmp of the same vectors
-            res.ob(good or (isinstance(rv, Top) and rv.tag == "delegate-result"), "C14.fields", key + "/result", "partial_cmp does not return the delegate's result: %r" % (rv,))
-        elif tname != "Hash":
-            res.ob(isinstance(rv, Top) and rv.tag == "delegate-result", "C14.fields", key + "/result", "%s does not return the delegate's result unchanged: %r" % (method, rv))
         res.count("object_impls")
+
+
+def sem_rule(ctx, res, rule="C14.sem"):
+    """==, cmp, partial_cmp and hash of Object, interpreted on every pair of small objects (up to 2 entries over two keys and two
+    values) whose key indexes are *wrong on purpose* (empty): the results must be those of the entry lists - equality of the
+    lists, their lexicographic order by (key, value), Some(of that), and a hash fed with the entries in order and nothing else -
+    whether the impls delegate to Vec<Entry> or spell the comparison out.  std's comparison / hashing of vectors and slices is
+    modelled as what it is documented to be (element-wise, then the lengths), calling the element's own impl."""
+    from .. import objmodel
+    from ..absint import UNIT, CallThen
+    from ..summ import AVec, ret_ty
+    P = ctx.P
+    need = ["root_object_eq", "root_object_cmp", "root_object_partial_cmp", "root_object_hash"]
+    if any(r not in P.roots for r in need):
+        res.violation(rule, rule + "/missing-root", "harness roots %r missing" % [r for r in need if r not in P.roots])
+        return
+
+    def elem_inst(trait, method):
+        c = [i for i in P.inst if re.search(r"^<json_syntax::object::Entry<.*> as %s>::%s(::<.*>)?$" % (re.escape(trait), method), i["name"]) and i.get("has_mir")]
+        if not c:
+            raise Undecided("Entry's %s::%s is not in the program" % (trait, method))
+        return c[0]["id"]
+
+    def install(W):
+        it = W.it
+
+        def tagv(st, v):
+            x = shape.deref(it, st, v, 4)
+            return x.tag if isinstance(x, Top) else repr(x)
+
+        def seq_eq(it_, st, inst, args, call):
+            try:
+                A, B = W.slice_items(st, args[0]), W.slice_items(st, args[1])
+            except Undecided:
+                return NotImplemented
+            neg = inst["path"].endswith("::ne")
+            if len(A) != len(B):
+                return Conc(1 if neg else 0)
+            ei = elem_inst("std::cmp::PartialEq", "eq")
+            ra, rb = st.new_obj(AVec(tuple(A), "cmp-a")), st.new_obj(AVec(tuple(B), "cmp-b"))
+
+            def step(it2, st2, k):
+                if k == len(A):
+                    return Conc(0 if neg else 1)
+
+                def then(it3, st3, rv):
+                    if not isinstance(rv, Conc):
+                        raise Undecided("element comparison returned %r" % (rv,))
+                    if rv.v == 0:
+                        return Conc(1 if neg else 0)
+                    return step(it3, st3, k + 1)
+                return CallThen(ei, [Ref(("H", ra.id), (("el", k),)), Ref(("H", rb.id), (("el", k),))], then)
+            return step(it_, st, 0)
+
+        def seq_cmp(partial):
+            def fn(it_, st, inst, args, call):
+                try:
+                    A, B = W.slice_items(st, args[0]), W.slice_items(st, args[1])
+                except Undecided:
+                    return NotImplemented
+                rt = ret_ty(it_, call)
+                oty = P.types[rt]["variants"][1]["fields"][0]["ty"] if partial else rt
+                wrap = (lambda o: Agg(rt, 1, (o,))) if partial else (lambda o: o)
+                ei = elem_inst("std::cmp::PartialOrd", "partial_cmp") if partial else elem_inst("std::cmp::Ord", "cmp")
+                ra, rb = st.new_obj(AVec(tuple(A), "cmp-a")), st.new_obj(AVec(tuple(B), "cmp-b"))
+
+                def step(it2, st2, k):
+                    if k == min(len(A), len(B)):
+                        return wrap(Agg(oty, 0 if len(A) < len(B) else (1 if len(A) == len(B) else 2), ()))
+
+                    def then(it3, st3, rv):
+                        o = rv.fields[0] if partial and isinstance(rv, Agg) and rv.variant == 1 else rv
+                        if not isinstance(o, Agg):
+                            raise Undecided("element ordering returned %r" % (rv,))
+                        if o.variant != 1:
+                            return wrap(Agg(oty, o.variant, ()))
+                        return step(it3, st3, k + 1)
+                    return CallThen(ei, [Ref(("H", ra.id), (("el", k),)), Ref(("H", rb.id), (("el", k),))], then)
+                return step(it_, st, 0)
+            return fn
+
+        def seq_hash(it_, st, inst, args, call):
+            try:
+                A = W.slice_items(st, args[0])
+            except Undecided:
+                return NotImplemented
+            st.emit("hash_len", len(A))
+            hi = [i for i in P.inst if re.search(r"^<json_syntax::object::Entry<.*> as std::hash::Hash>::hash::<", i["name"]) and i.get("has_mir")]
+            if not hi:
+                raise Undecided("Entry's Hash::hash is not in the program")
+            ra = st.new_obj(AVec(tuple(A), "hash-a"))
+
+            def step(it2, st2, k):
+                if k == len(A):
+                    return UNIT
+                return CallThen(hi[0]["id"], [Ref(("H", ra.id), (("el", k),)), args[1]], lambda it3, st3, rv: step(it3, st3, k + 1))
+            return step(it_, st, 0)
+
+        S = it.summaries
+        nm = lambda rx: (lambda inst, _rx=re.compile(rx): bool(_rx.search(inst["path"])))
+        S.insert(0, (nm(r"PartialEq<(std::vec::Vec<U, A2>|\[U\])>>::(eq|ne)$|PartialEq<\[U\]> for \[T\]>::(eq|ne)$|PartialEq<std::vec::Vec<U, A2>> for std::vec::Vec<T, A1>>::(eq|ne)$"), seq_eq))
+        S.insert(0, (nm(r"^<std::vec::Vec<T, A> as std::cmp::Ord>::cmp$|^<\[T\] as std::cmp::Ord>::cmp$|impl std::cmp::Ord for \[T\]>::cmp$"), seq_cmp(False)))
+        S.insert(0, (nm(r"^<std::vec::Vec<T, A1> as std::cmp::PartialOrd<std::vec::Vec<T, A2>>>::partial_cmp$|^<\[T\] as std::cmp::PartialOrd>::partial_cmp$|impl std::cmp::PartialOrd for \[T\]>::partial_cmp$"), seq_cmp(True)))
+        S.insert(0, (nm(r"^<std::vec::Vec<T, A> as std::hash::Hash>::hash$|^<\[T\] as std::hash::Hash>::hash$|impl std::hash::Hash for \[T\]>::hash$"), seq_hash))
+        sh = W.sh
+        sh.cut(r"^<json_syntax::Value as std::cmp::PartialEq>::eq$", "val_eq", ret=lambda it_, st, c, a: Conc(int(tagv(st, a[0]) == tagv(st, a[1]))))
+
+        def val_pcmp(it_, st, c, a):
+            rt = shape.ret_ty(it_, c)
+            oty = P.types[rt]["variants"][1]["fields"][0]["ty"]
+            x, y = tagv(st, a[0])[1], tagv(st, a[1])[1]
+            return Agg(rt, 1, (Agg(oty, 0 if x < y else (1 if x == y else 2), ()),))
+
+        sh.cut(r"^<json_syntax::Value as std::cmp::PartialOrd>::partial_cmp$", "val_pcmp", ret=val_pcmp)
+        sh.cut(r"^<json_syntax::Value as std::hash::Hash>::hash::<", "hash_val", ret=lambda it_, st, c, a: (st.emit("hash", tagv(st, a[0])), UNIT)[1])
+        sh.cut(r"^<smallstr::string::SmallString<\[u8; 16\]> as std::hash::Hash>::hash::<", "hash_key", ret=lambda it_, st, c, a: (st.emit("hash", tagv(st, a[0])), UNIT)[1])
+
+    objs = [list(o) for o in objmodel.list_objects(2)]
+    rank = lambda ents: [(objmodel.CP_RANK[k], v) for k, v in ents]
+    bad = {}
+    n = 0
+    try:
+        for A in objs:
+            for B in objs:
+                for op in ("eq", "cmp", "partial_cmp"):
+                    W = objmodel.World(P)
+                    install(W)
+                    st = W.sh.st
+                    aref, _ = W.mk_object(st, A, index=objmodel.IdxModel())
+                    bref, _ = W.mk_object(st, B, index=objmodel.IdxModel())
+                    outs = W.call(st, P.inst[P.roots["root_object_" + op]], [aref, bref])
+                    if len(outs) != 1 or outs[0].outcome[0] != "return":
+                        raise Undecided("%s on %r / %r: %d paths (%s)" % (op, A, B, len(outs), [o.outcome[0] for o in outs][:3]))
+                    rv = outs[0].outcome[1]
+                    n += 1
+                    if op == "eq":
+                        ok = rv == Conc(int(A == B))
+                    else:
+                        o = rv.fields[0] if op == "partial_cmp" and isinstance(rv, Agg) and rv.variant == 1 else rv
+                        want = 0 if rank(A) < rank(B) else (1 if rank(A) == rank(B) else 2)
+                        ok = isinstance(o, Agg) and o.variant == want and (op == "cmp" or (isinstance(rv, Agg) and rv.variant == 1))
+                    if not ok:
+                        bad.setdefault("%s/%s" % (rule, op), "%s on %r and %r (with key indexes that do not describe them) returns %r: not the result on the entry lists" % (op, A, B, rv))
+            W = objmodel.World(P)
+            install(W)
+            st = W.sh.st
+            aref, _ = W.mk_object(st, A, index=objmodel.IdxModel())
+            hs = Ref(("H", st.new_obj(Top(None, "the-hasher")).id), ())
+            outs = W.call(st, P.inst[P.roots["root_object_hash"]], [aref, hs])
+            if len(outs) != 1 or outs[0].outcome[0] != "return":
+                raise Undecided("hash on %r: %d paths" % (A, len(outs)))
+            fed = [e[1] for e in outs[0].events if e[0] == "hash"]
+            want = [x for k, v in A for x in (("key", k), ("val", v))]
+            n += 1
+            if fed != want or [e for e in outs[0].events if e[0] == "ext"]:
+                bad.setdefault(rule + "/hash", "hash on %r feeds the hasher %r, expected the entries in order %r and nothing else" % (A, fed, want))
+    except Undecided as e:
+        res.violation(rule, rule + "/undecided", "undecided while interpreting a comparison of two small objects: %s" % e)
+        return
+    res.count(rule + " cases", n)
+    res.floor(rule, rule + " cases", 100)
+    for k, d in sorted(bad.items()):
+        res.violation(rule, k, d)
+    if not bad:
+        res.ob(True, rule, rule + "/all", "", sample={"pairs": len(objs) ** 2, "cases": n, "verdict": "==, cmp, partial_cmp and hash are those of the entry lists, with the key index ignored"})
 
 
 def derive_rule(ctx, res):
